@@ -109,6 +109,7 @@ class _Gen(object):
         self.rng = rng
         self.opts = opts
         self.alias_n = 0
+        self.compats = {}           # (module, class) -> (compat module, exported name, variant)
         self.features = set()
         self.forms = set()
 
@@ -335,7 +336,42 @@ class _Gen(object):
             m['wrap'] = rng.choice(('async-with', 'async-with-as', 'async-for') if m.get('async') else ()) \
                 if m.get('async') and self.chance(0.7) else 'try-finally'
             self.features.add('self-assign-inside-' + m['wrap'])
+        if self.chance(self.opts.get('nested_p', 0.2)):
+            self.nested_functions(m, selfname, init)
         return m
+
+    def nested_functions(self, m, selfname, init):
+        """functions nested 1-3 deep in the method that assign through the captured self and are called by the
+        method (directly / under a constant condition) or returned to the caller (the oracle calls the result)."""
+        rng = self.rng
+        depth = rng.choice((1, 1, 2, 2, 3))
+        fnames = ('cb', 'inner', 'deep')[:depth]
+        attrs = []
+
+        def build(level):
+            lines = ['def %s(%s):' % (fnames[level], 'r=None' if level == 0 else '')]
+            body = []
+            if level == depth - 1 or self.chance(0.5):
+                a = rng.choice(self.ipool)          # never a property name: the closure must not raise
+                attrs.append(a)
+                body.append('%s.%s = %s' % (selfname, a, 'r' if level == 0 and self.chance(0.3) else self.value()))
+            if level + 1 < depth:
+                body.extend(build(level + 1))
+                body.append('%s()' % fnames[level + 1])
+            return lines + ['    ' + b for b in body]
+        lines = build(0)
+        how = rng.choice(('direct', 'direct', 'conditional') if init else ('direct', 'direct', 'conditional', 'returned'))
+        if how == 'direct':
+            lines.append('cb()')
+        elif how == 'conditional':
+            lines.extend(['if 1:', '    cb(2)'])
+        else:
+            m['tail'] = ['    return cb']
+        m['nested'] = lines
+        m['assigns'] = list(m['assigns'])
+        m['nested_attrs'] = attrs
+        self.features.add('nested-function-assigning-through-self:depth-%d' % depth)
+        self.features.add('nested-function-called:%s' % how)
 
     def prop(self, c, name):
         self.features.add('property')
@@ -384,7 +420,7 @@ class _Gen(object):
                                   'async-for': 'async for _i in {D:AIter}():'}[wrap]
                         inner = [opener] + ['    ' + st for st in safe]
                     safe = inner
-                body = ['    %s' % st for st in safe + m.get('alias', []) + ([last] if last else [])]
+                body = ['    %s' % st for st in safe + m.get('alias', []) + m.get('nested', []) + ([last] if last else [])]
                 if not body and not m['tail']:
                     body = ['    pass']
                 m['lines'] = m['head'] + body + m['tail'] + m.get('post', [])
@@ -438,6 +474,14 @@ class _Gen(object):
         key = (tmod.dotted, cname)
         if not fresh and key in importer.refs:
             return importer.refs[key]
+        if cname and re.match(r'K\d+$', cname) and not getattr(tmod, 'custom', None) and \
+                self.chance(self.opts.get('compat_p', 0.12)):
+            # reach the class through a module that binds it conditionally (import vs local fallback)
+            cm, alias, variant = self.compat_for(tmod, cname)
+            expr, kind = self.ref(importer, cm, alias)
+            kind = 'conditional-export(%s)+%s' % (variant, kind)
+            importer.refs[key] = (expr, kind)
+            return expr, kind
         kind, stmt, expr = self.rng.choice(self.import_forms(importer, tmod, cname))
         if '{A}' in stmt:
             a = self.alias()
@@ -450,6 +494,44 @@ class _Gen(object):
         self.forms.add(kind)
         importer.refs[key] = (expr, kind)
         return expr, kind
+
+    COMPAT_VARIANTS = ('try-import/except-class', 'try-import/except-class', 'try-import/except-assign',
+                       'try-import/except-def', 'if-1-import/else-class', 'version-check-import/else-class',
+                       'if-1-class/else-import')
+
+    def compat_for(self, tmod, cname):
+        """A top-level module exporting B<n>, bound conditionally: one alternative imports class cname of tmod,
+        the other is a local class / def / assignment.  Only variants whose executed path is the FIRST
+        alternative (import succeeds / constant-true condition)."""
+        key = (tmod.dotted, cname)
+        if key in self.compats:
+            return self.compats[key]
+        rng = self.rng
+        n = len(self.compats) + 1
+        mod = _Module('compat%d' % n, None)
+        alias = 'B%d' % n
+        variant = rng.choice(self.COMPAT_VARIANTS)
+        imp = 'from %s import %s as %s' % (tmod.dotted, cname, alias)
+        local = ['class %s(object):' % alias, '    fallback_marker = %d' % n, '',
+                 '    def %s(self):' % rng.choice(self.pool), '        self.%s = 0' % rng.choice(self.ipool),
+                 '        self.only_in_fallback = 1']
+        ind = lambda ls: ['    ' + l if l else '' for l in ls]
+        if variant == 'try-import/except-class':
+            lines = ['try:'] + ind([imp]) + ['except ImportError:'] + ind(local)
+        elif variant == 'try-import/except-assign':
+            lines = ['try:'] + ind([imp]) + ['except ImportError:'] + ind(['%s = None' % alias])
+        elif variant == 'try-import/except-def':
+            lines = ['try:'] + ind([imp]) + ['except ImportError:'] + ind(['def %s(*args):' % alias, '    return None'])
+        elif variant == 'if-1-import/else-class':
+            lines = ['if 1:'] + ind([imp]) + ['else:'] + ind(local)
+        elif variant == 'version-check-import/else-class':
+            lines = ['import sys', '', 'if sys.version_info >= (3,):'] + ind([imp]) + ['else:'] + ind(local)
+        else:   # control: the local class is the first alternative and the one CPython binds
+            lines = ['if 1:'] + ind(local) + ['else:'] + ind([imp])
+        mod.custom = lines
+        self.features.add('conditional-export:' + variant)
+        self.compats[key] = (mod, alias, variant)
+        return self.compats[key]
 
     def add_reexport(self, tmod, cname):
         if self.reexported.get(cname):
@@ -681,6 +763,8 @@ def gen_project(rng, opts=None):
     files = g.render()
     queries = g.make_queries(files)
     g.finish_inits(files)
+    for cm, alias, variant in g.compats.values():
+        files[cm.relpath] = '\n'.join(cm.custom) + '\n'
     meta = {'classes': {c['name']: {'module': c['mod'].dotted, 'bases': [b if k == 'builtin' else b['name'] for k, b in c['base_items']],
                                     'depth': c['depth'], 'base_via': c.get('base_via', {})} for c in g.classes},
             'features': sorted(g.features), 'import_forms': sorted(g.forms),
@@ -688,6 +772,9 @@ def gen_project(rng, opts=None):
             'n_async_methods': sum(1 for c in g.classes for m in c['members'] if m.get('async')),
             'n_async_methods_assigning': sum(1 for c in g.classes for m in c['members'] if m.get('async') and m.get('assigns')),
             'n_classes_with_async_method': sum(1 for c in g.classes if any(m.get('async') for m in c['members'])),
+            'compat_files': {cm.relpath: variant for cm, alias, variant in g.compats.values()},
+            'n_methods_with_nested_functions': sum(1 for c in g.classes for m in c['members'] if m.get('nested')),
+            'n_conditional_exports': len(g.compats),
             'packages': g.pkgs, 'modules': [m.dotted for m in g.all_modules]}
     return {'files': files, 'queries': queries, 'meta': meta}
 
